@@ -26,6 +26,8 @@ var c1witnesses = []c1witness{
 		"#A: {}\nw: #A & {c: 1, #A}\n", "#A: {}\nw: {c: 1, #A} & #A\n"},
 	{"closedness-of-embedded-reference-depends-on-arrangement",
 		"#A: {}\ny: {c: {c: {b: _}, c: {#A}}}\n", "#A: {}\ny: {c: {c: {b: _}, c: {{#A & _}}}}\n"},
+	{"closedness-through-sibling-field-references-depends-on-order",
+		"#B: {x: {}}\n#A: {x: {b: _}}\nw: {p: #B.x, q: #A.x, r: p & q}\n", "#B: {x: {}}\n#A: {x: {b: _}}\nw: {r: p & q, q: #A.x, p: #B.x}\n"},
 	{"top-unified-with-struct-holding-failing-comprehension",
 		"x: {if false {}}\n", "x: _ & {if false {}}\n"},
 	{"top-unified-with-struct-holding-failing-comprehension",
